@@ -219,6 +219,13 @@ impl StateCheck for C18 {
             if o1s.status != Some(0) || o1s.files != o1.files {
                 out.viol("cli_saved_files_replace_existing_ones", &[], "--oc --of over existing longer files", format!("exit {:?}, lengths {:?}", o1s.status, o1s.files.iter().map(|f| f.1.as_ref().map(|b| b.len())).collect::<Vec<_>>()), format!("the files of a run into fresh paths, lengths {:?}", o1.files.iter().map(|f| f.1.as_ref().map(|b| b.len())).collect::<Vec<_>>()));
             }
+            // ... and when they hold older files of exactly the same length (same layout, other digits)
+            let same_len = |n: &str| -> Vec<u8> { o1.files.iter().find(|(k, _)| k == n).and_then(|(_, b)| b.clone()).unwrap_or_default().iter().map(|c| if c.is_ascii_digit() { b'7' } else { *c }).collect() };
+            let (old_oc, old_of) = (same_len("oc.csv"), same_len("of.csv"));
+            let o1l = cli::run(&cli::sv(&["-c", "@c.csv", "-l", "CANARIAS", "-a", "2.5", "-k", "0.5", "--red1", "0.125", "1.175", "0.255", "--red2", "0.3335", "0.6665", "0.1115", "--oc", "@oc.csv", "--of", "@of.csv"]), &[("c.csv", text.as_bytes()), ("oc.csv", &old_oc), ("of.csv", &old_of)], &["oc.csv", "of.csv"], Some(3), Duration::from_secs(10));
+            if o1l.status != Some(0) || o1l.files != o1.files {
+                out.viol("cli_saved_files_replace_existing_ones", &[], "--oc --of over existing files of the same length", format!("exit {:?}; the saved files are not those of a run into fresh paths", o1l.status), "the files of a run into fresh paths");
+            }
             let get = |n: &str| o1.files.iter().find(|(k, _)| k == n).and_then(|(_, b)| b.clone());
             let (Some(oc), Some(of)) = (get("oc.csv"), get("of.csv")) else {
                 out.viol("cli_writes_oc_of", &[], "--oc --of", "a requested file is missing", "two files");
